@@ -90,7 +90,7 @@ def helper_obs(spec):
             bd = kw.get('birthday')
             if bd:
                 lines.append([cps('BDAY'), cps(bd.strftime('%Y-%m-%d') if not isinstance(bd, str) else bd), True])
-            if kw.get('lat') and kw.get('lng'):
+            if kw.get('lat') is not None and kw.get('lng') is not None:      # 0 is a coordinate (equator / prime meridian)
                 lines.append([cps('GEO'), cps(f"{kw['lat']};{kw['lng']}"), True])
             if kw.get('source'):
                 add('SOURCE', kw['source'])
@@ -187,6 +187,15 @@ def gen_specs(tier, seed_):
     add('mecard', name='N', birthday='19991231')
     add('vcard', name='Doe;John', displayname='JD', birthday=datetime.date(1980, 5, 6), rev='2020-01-02', lat=1.5, lng=-2.25, fax='1', videophone='2',
         cellphone='3', homephone='4', workphone=['5', '6'], photo_uri='http://example.org/p.png', phone='7', zipcode='12345', country='DE', region='R', pobox='PO')
+    # vCard dates as text, coordinates on the equator / prime meridian, incomplete coordinates
+    add('vcard', name='Doe;John', displayname='JD', lat=0, lng=20)
+    add('vcard', name='Doe;John', displayname='JD', lat=10.5, lng=0)
+    add('vcard', name='Doe;John', displayname='JD', lat=0.0, lng=0.0)
+    add('vcard', name='Doe;John', displayname='JD', birthday='1980-05-06', rev='2020-01-02T10:11:12Z')
+    add('vcard', name='Doe;John', displayname='JD', birthday='not a date', must_refuse=True)
+    add('vcard', name='Doe;John', displayname='JD', rev='yesterday', must_refuse=True)
+    add('vcard', name='Doe;John', displayname='JD', lat=12.5, must_refuse=True)
+    add('vcard', name='Doe;John', displayname='JD', lng=12.5, must_refuse=True)
     # geo
     for lat, lng in ((0, 0), (1, 1), (48.85, 2.35), (-33.8688, 151.2093), (90, -180), (0.00000001, -0.00000001), (12.34567891, 98.7654321), (-0.5, 0.5),
                      (10, 20.0), (38.8976763, -77.0365297)):
